@@ -88,7 +88,64 @@ def _pix(case):
     return case.get("pix") or PIX[:len(case["ab"])]
 
 
+def _build_slit(case):
+    """one pixel axis (position along a slit), two or three world axes (lon, lat[, wavelength]); the inverse is supplied by the user"""
+    lon0, lat0, sl, sb = case["lon0"], case["lat0"], case["sl"], case["sb"]
+    fwd = models.Mapping((0, 0)) | (models.Scale(sl) | models.Shift(lon0)) & (models.Scale(sb) | models.Shift(lat0))
+    inv = models.Mapping((0,), n_inputs=2) | models.Shift(-lon0) | models.Scale(1.0 / sl)
+    sky = cf.CelestialFrame(reference_frame=coord.ICRS(), axes_order=(0, 1), name="sky")
+    out = sky
+    if case["nworld"] == 3:
+        fwd = models.Mapping((0, 0, 0)) | (models.Scale(sl) | models.Shift(lon0)) & (models.Scale(sb) | models.Shift(lat0)) & (models.Scale(0.5) | models.Shift(2.0))
+        inv = models.Mapping((0,), n_inputs=3) | models.Shift(-lon0) | models.Scale(1.0 / sl)
+        out = cf.CompositeFrame([sky, cf.SpectralFrame(unit=u.um, axes_order=(2,), name="spec")], name="world")
+    fwd.inverse = inv
+    det = cf.CoordinateFrame(naxes=1, axes_type=("SPATIAL",), axes_order=(0,), name="detector", unit=(u.pix,))
+    return gw.WCS([(det, fwd), (out, None)])
+
+
+def _impl_slit(case):
+    w = _build_slit(case)
+    res = {}
+    for nm, p in (("scalar", case["p"]), ("array", np.array([case["p"], case["p"] + 3.0, 0.25]))):
+        r = {}
+        try:
+            objs = w.pixel_to_world(p)
+            flat = list(objs) if isinstance(objs, (list, tuple)) else [objs]
+            r["kinds"] = [type(o).__name__ for o in flat]
+            for op, f in (("w2p", w.world_to_pixel), ("w2ai", w.world_to_array_index), ("w2aiv", lambda *o: w.world_to_array_index_values(*w.pixel_to_world_values(p)))):
+                try:
+                    v = f(*flat)
+                    r[op] = {"tuple": isinstance(v, tuple), "v": np.asarray(v, dtype=float).tolist(), "int": bool(np.issubdtype(np.asarray(v).dtype, np.integer))}
+                except Exception as e:
+                    r[op] = {"err": C.exc_enum(e) + ":" + str(e)[:80]}
+        except Exception as e:
+            r["err"] = C.exc_enum(e) + ":" + str(e)[:80]
+        res[nm] = r
+    return res
+
+
+def _oracle_slit(case, res):
+    out = []
+    for nm, p in (("scalar", case["p"]), ("array", [case["p"], case["p"] + 3.0, 0.25])):
+        r = res[nm]
+        if "err" in r:
+            out.append(("slit", "pixel_to_world(%s) on a 1-pixel-axis / %d-world-axis WCS raised %s" % (p, case["nworld"], r["err"])))
+            continue
+        want_idx = np.floor(np.asarray(p, dtype=float) + 0.5).tolist()
+        for op, want, tol in (("w2p", np.asarray(p, dtype=float).tolist(), 1e-9), ("w2ai", want_idx, 0), ("w2aiv", want_idx, 0)):
+            v = r[op]
+            if "err" in v:
+                out.append(("slit", "%s of the objects returned for pixel %s raised %s (1 pixel axis, %d world axes)" % (op, p, v["err"], case["nworld"])))
+            elif v["tuple"] or not np.allclose(v["v"], want, rtol=0, atol=tol) or (op != "w2p" and not v["int"]):
+                out.append(("slit", "%s of the objects returned for pixel %s gives %s%s, expected %s (1 pixel axis, %d world axes)" %
+                            (op, p, "a tuple " if v["tuple"] else "", v["v"], want, case["nworld"])))
+    return out[:3]
+
+
 def impl(case):
+    if case.get("kind") == "slit1":
+        return _impl_slit(case)
     try:
         w, subs = _build(case)
     except Exception as e:
@@ -188,6 +245,8 @@ def _key30(case):
 
 
 def oracle(case, res):
+    if case.get("kind") == "slit1":
+        return _oracle_slit(case, res)
     out = []
     k11 = _key(case)
     if "build_err" in res:
@@ -269,7 +328,7 @@ def _frame_keys(spec):
 
 
 def request(case, res):
-    if case.get("lone") or "build_err" in res:
+    if case.get("kind") == "slit1" or case.get("lone") or "build_err" in res:
         return None
     frames = []
     for spec, ao in zip(case["subframes"], case["axes_orders"]):
@@ -298,11 +357,16 @@ def compare(case, res, resp):
 
 
 def nontrivial(case, res):
+    if case.get("kind") == "slit1":
+        return True
     flat = [i for ao in case["axes_orders"] for i in ao]
     return flat != sorted(flat)
 
 
 def stats(case, res, st):
+    if case.get("kind") == "slit1":
+        st["slit_1pixel_%dworld" % case["nworld"]] += 1
+        return
     st["nframes_%d" % len(case["subframes"])] += 1
     st["naxes_%d" % len(case["ab"])] += 1
     for s in case["subframes"]:
@@ -315,6 +379,10 @@ def stats(case, res, st):
 
 def gen(rng, tier):
     q = tier == "quick"
+    for _ in range(8 if q else 150):
+        # fewer pixel than world axes: a slit whose single pixel coordinate gives sky position (and wavelength)
+        yield {"kind": "slit1", "nworld": rng.choice([2, 3]), "lon0": float(rng.randint(10, 300)), "lat0": float(rng.randint(-60, 60)),
+               "sl": rng.choice([0.01, 0.03125, -0.02]), "sb": rng.choice([0.005, 0.0625, -0.01]), "p": rng.randint(-8, 200) / 4.0 + 0.125}       # (never a half-integer: rounding there is decided by the last bit of the inverse)
     for _ in range(90 if q else 4000):
         lone = rng.random() < 0.15
         nsub = 1 if lone else rng.randint(2, 4)
